@@ -176,6 +176,13 @@ func (p *Proxy) FailMethod(method, msg string) {
 	p.mu.Unlock()
 }
 
+// FailInvoke makes the proxy answer `invokefunction` calls of the given
+// contract method (any contract) with an RPC error itself (msg == "" removes
+// the rule): a read fault at one particular chain read.
+func (p *Proxy) FailInvoke(contractMethod, msg string) {
+	p.FailMethod("invokefunction:"+contractMethod, msg)
+}
+
 // Reset forgets the log.
 func (p *Proxy) Reset() {
 	p.mu.Lock()
@@ -293,6 +300,12 @@ func (p *Proxy) serveWS(w http.ResponseWriter, r *http.Request) {
 		p.calls = append(p.calls, Call{Conn: connNo, Method: req.Method, Params: req.Params})
 		swallow := p.swallow
 		failMsg, failing := p.fail[req.Method]
+		if !failing && req.Method == "invokefunction" && len(req.Params) > 1 {
+			var cm string
+			if json.Unmarshal(req.Params[1], &cm) == nil {
+				failMsg, failing = p.fail["invokefunction:"+cm]
+			}
+		}
 		p.mu.Unlock()
 
 		isWrite := req.Method == "sendrawtransaction" || req.Method == "submitnotaryrequest"
